@@ -121,6 +121,11 @@ pub fn set_mono_tick_pattern(p: Vec<u32>) {
     with(|s| s.mono_tick_pattern = p)
 }
 
+/// the monotonic reading the next read will be shown (ns)
+pub fn mono_ns() -> u64 {
+    with(|s| s.mono_ns)
+}
+
 pub fn advance_mono_ns(d: u64) {
     with(|s| s.mono_ns += d)
 }
